@@ -104,9 +104,6 @@ func (h *hist) endTx(p *txPair, commit bool) {
 		want := p.m.Commit()
 		e.withMax(func() { err = p.real.Commit() })
 		sig := ""
-		if p.prunes > 1 {
-			sig = sigPruneTwice
-		}
 		e.expect(Op{K: "commit"}, want, err, sig)
 		if want == kvmodel.OK {
 			h.commitEffects(p)
@@ -198,9 +195,6 @@ func (h *hist) managed(t *rapid.T, update bool) {
 	case "ok":
 		if panicked != nil || retErr != nil {
 			sig := ""
-			if p.prunes > 1 {
-				sig = sigPruneTwice
-			}
 			e.failf(sig, "%s with a nil-returning closure returned %v", name, retErr)
 		}
 		if update {
